@@ -1,0 +1,21 @@
+//go:build verif
+
+package nfs
+
+import (
+	"github.com/goose-lang/primitive/disk"
+
+	"github.com/mit-pdos/go-nfsd/fstxn"
+	"github.com/mit-pdos/go-nfsd/shrinker"
+	"github.com/mit-pdos/go-nfsd/super"
+)
+
+// Accessors for the verification harness (see /verif/DESIGN.md, Section 6).
+
+func (nfs *Nfs) VerifFsState() *fstxn.FsState { return nfs.fsstate }
+
+func (nfs *Nfs) VerifShrinker() *shrinker.ShrinkerSt { return nfs.shrinkst }
+
+// VerifMakeFs formats d exactly as MakeNfs does on an empty disk, without
+// starting a server.
+func VerifMakeFs(d disk.Disk) { makeFs(super.MkFsSuper(d)) }
